@@ -51,6 +51,16 @@ def run_case(case):
         rec["runs"].append({"ty": absmodel.abs_type(ty), "err": "NONE"})
     except Exception as e:
         rec["runs"].append({"ty": absmodel.ABSENT, "err": type(e).__name__})
+    # ... and merged under ANOTHER limit first (one process building stubs for two configurations, `get_stubs()` called again
+    # after the limit was lowered): the later merge obeys its own limit
+    try:
+        tys = [get_type(x, k1) for x in reals]
+        shrink_types(tys, max(k1, k, 3) + 7)
+        shrink_types(list(tys), 1)
+        ty = shrink_types(tys, k)
+        rec["runs"].append({"ty": absmodel.abs_type(ty), "err": "NONE"})
+    except Exception as e:
+        rec["runs"].append({"ty": absmodel.ABSENT, "err": type(e).__name__})
     # the same values with aliasing: structurally equal containers are one object, inside a value and across values
     # (a row stored twice, the () singleton, one dict passed to two calls); the inferred type must not care
     share = {}
